@@ -1,6 +1,7 @@
 import Driver.Pure
 import Muxide.Spec.Reader
 import Muxide.Spec.Framing
+import Muxide.Spec.Expect
 /-
   Driver.Judge — per-property projection π_P, oracle O_P (evaluated on the implementation's
   output *and* on the model's output) and recorded-region predicates. See DESIGN.md 3.4.
@@ -36,6 +37,17 @@ def isFinishOp (op : List String) : Bool :=
 
 /-- (op, reply) pairs, as far as replies exist -/
 def zipOps (c : PCase) (o : PObs) : List (List String × (PR × Nat)) := List.zip c.ops o.replies
+
+/-- `Spec.units`, computed through the model's linear-time NAL iterator. Justified by the
+    kernel-checked theorem `Muxide.Props.C14.C14_modelUnits : modelUnits d = units d`; the
+    declarative `Spec.splitAnnexB` (least-index search with list indexing) is quadratic and is used
+    directly only where inputs are small (C14's own oracle). -/
+def unitsFast (d : Bytes) : List Bytes :=
+  let u := (nals d).filter (· ≠ [])
+  if u = [] ∧ d ≠ [] then [d] else u
+
+def mp4PayloadFast (annexB : Bool) (data : Bytes) : Bytes :=
+  if annexB then lengthPrefixed (unitsFast data) else data
 
 /-! ### C14 -/
 def oracleC14X (input out : Bytes) : Bool := parseLengthPrefixed out == some (units input)
